@@ -6,7 +6,8 @@ import ast
 from sa.astx import dotted, src
 from sa.effects import module_accesses
 from sa.selftest import Mutant, Silent
-from sa.props._lib_a import (DEFER, Q, RunShape, _zero_fact, deferred_fact, attr_of, avoiding_path, call_nodes, calls_of, catching_handlers, const_int,
+from sa.source import AnalysisError
+from sa.props._lib_a import (DEFER, Q, RunShape, group, _zero_fact, deferred_fact, attr_of, avoiding_path, call_nodes, calls_of, catching_handlers, const_int,
                              exc_escape, facts, handler_catches_all, handler_names, ident_fact, is_const, is_name, known_bool,
                              known_zero, method_call, name_assign_nodes, no_exc, params, real_func, stmt_nodes, targets_values)
 
@@ -49,439 +50,464 @@ def _slot_callee(f, expr, local_tuples):
 
 def check(ctx):
     mod = ctx.mod(DEFER)
-    S = RunShape(ctx)
-    g, q, cur = S.g, S.q, S.cur
+    q = Q + "Deferred._runCallbacks"
 
-    # ======================================================================================
     # (a) who may mutate `callbacks`; FIFO
-    # ======================================================================================
-    acc = module_accesses(mod, {"callbacks"})
-    allowed = {
-        ("Deferred.__init__", "rebind-empty"), ("Deferred.addCallbacks", "append"), ("Deferred.addCallback", "append"),
-        ("Deferred.addErrback", "append"), ("Deferred.addBoth", "append"),
-        ("Deferred._runCallbacks", "append"),      # continuation registered on the returned Deferred (checked below)
-        ("Deferred._runCallbacks", "pop_first"),
-        # frozen exception, confirmed by reading: the cancel errback is put *first*, the rest keeps its order (C05 checks it)
-        ("_addCancelCallbackToDeferred", "assign"), ("_addCancelCallbackToDeferred", "rebind-empty"), ("_addCancelCallbackToDeferred", "extend"),
-    }
-    for a in acc:
-        ctx.check((a.func, a.kind) in allowed, "callbacks/who-may-mutate", ctx.construct(Q + a.func, a.node),
-                  f"`callbacks` is mutated by operation kind '{a.kind}' in {a.func}: callbacks would not run once each, in the order added")
-    ctx.floor("callbacks/who-may-mutate", len(acc), 8)
-    fills = [a for a in acc if a.kind in ("append", "appendleft", "insert0", "insert", "extend") and a.func.startswith("Deferred.")]
-    drains = [a for a in acc if a.kind.startswith("pop") or a.kind in ("remove", "del-prefix", "delitem", "clear")]
-    for a in fills:
-        ctx.check(a.kind == "append", "callbacks/fifo-fill", ctx.construct(Q + a.func, a.node),
-                  f"callback pair added with '{a.kind}' instead of append: it would not run after the ones added before")
-    for a in drains:
-        ctx.check(a.kind == "pop_first" and a.func == "Deferred._runCallbacks", "callbacks/fifo-drain", ctx.construct(Q + a.func, a.node),
-                  f"callbacks consumed with '{a.kind}' in {a.func}: with two callbacks added, the second would run first / be dropped")
-    ctx.check(any(a.kind == "pop_first" for a in drains), "callbacks/fifo-drain", q + " | <consumption of callbacks>",
-              "_runCallbacks no longer consumes callbacks from the front")
+    with group(ctx, "queue"):
+        acc = module_accesses(mod, {"callbacks"})
+        allowed = {
+            ("Deferred.__init__", "rebind-empty"), ("Deferred.addCallbacks", "append"), ("Deferred.addCallback", "append"),
+            ("Deferred.addErrback", "append"), ("Deferred.addBoth", "append"),
+            ("Deferred._runCallbacks", "append"),      # continuation registered on the returned Deferred (checked below)
+            ("Deferred._runCallbacks", "pop_first"), ("Deferred._runCallbacks", "delitem"),   # `del cbs[0]` after reading cbs[0] (index judged below)
+            # frozen exception, confirmed by reading: the cancel errback is put *first*, the rest keeps its order (C05 checks it)
+            ("_addCancelCallbackToDeferred", "assign"), ("_addCancelCallbackToDeferred", "rebind-empty"), ("_addCancelCallbackToDeferred", "extend"),
+        }
+        for a in acc:
+            ctx.check((a.func, a.kind) in allowed, "callbacks/who-may-mutate", ctx.construct(Q + a.func, a.node),
+                      f"`callbacks` is mutated by operation kind '{a.kind}' in {a.func}: callbacks would not run once each, in the order added")
+        ctx.floor("callbacks/who-may-mutate", len(acc), 5)
+        fills = [a for a in acc if a.kind in ("append", "appendleft", "insert0", "insert", "extend") and a.func.startswith("Deferred.")]
+        drains = [a for a in acc if a.kind.startswith("pop") or a.kind in ("remove", "del-prefix", "delitem", "clear")]
+        for a in fills:
+            ctx.check(a.kind == "append", "callbacks/fifo-fill", ctx.construct(Q + a.func, a.node),
+                      f"callback pair added with '{a.kind}' instead of append: it would not run after the ones added before")
+        def front(a):
+            if a.kind == "pop_first":
+                return True
+            return a.kind == "delitem" and isinstance(a.node, ast.Delete) and all(isinstance(t, ast.Subscript) and const_int(t.slice) == 0 for t in a.node.targets)
+        for a in drains:
+            ctx.check(front(a) and a.func == "Deferred._runCallbacks", "callbacks/fifo-drain", ctx.construct(Q + a.func, a.node),
+                      f"callbacks consumed with '{a.kind}' in {a.func}: with two callbacks added, the second would run first / be dropped")
+        ctx.check(any(front(a) for a in drains), "callbacks/fifo-drain", q + " | <consumption of callbacks>",
+                  "_runCallbacks no longer removes callbacks from the front as it runs them (each would run again, or out of order)")
 
-    # chain stack discipline: peek last, push by append, pop last
-    chain = S.chain
-    for b in S.binds:
-        ctx.check(S.bind_index[b] == -1, "chain/lifo", ctx.construct(q, g.node(b).ast),
-                  "the current Deferred is not read from the top of the chain stack: after a _CONTINUE hand-over the waiting "
-                  "Deferred's callbacks would not be the ones run next")
-    chain_ops = call_nodes(g, lambda c: isinstance(c.func, ast.Attribute) and is_name(c.func.value, chain))
-    for n in chain_ops:
-        for c in calls_of(g, n, lambda c: isinstance(c.func, ast.Attribute) and is_name(c.func.value, chain)):
-            m = c.func.attr
-            ok = (m == "append" and len(c.args) == 1) or (m == "pop" and (not c.args or const_int(c.args[0]) == -1))
-            ctx.check(ok, "chain/lifo", ctx.construct(q, c),
-                      "the chain stack is pushed/popped at inconsistent ends: a finished Deferred other than the current one is removed")
-    chain_pops = call_nodes(g, lambda c: method_call(c, "pop", chain))
-    ctx.check(bool(chain_pops), "chain/lifo", q + " | <pop of the chain stack>", "a finished Deferred is never removed from the chain stack")
-
-    # ======================================================================================
-    # adders: slot layout, run-at-once on a called Deferred, return self
-    # ======================================================================================
-    for name, (want_ok, want_err) in ADDERS.items():
-        f = real_func(ctx, DEFER, f"Deferred.{name}")
-        fg = ctx.cfg(f)
-        fq = Q + f"Deferred.{name}"
-        ps = params(f)[1:]
-        local_tuples = {}
-        for n in fg.nodes:
-            if n.kind == "stmt":
-                for t, v in targets_values(n.ast):
-                    if isinstance(t, ast.Name) and isinstance(v, ast.Tuple):
-                        local_tuples[t.id] = v
-        apps = call_nodes(fg, lambda c: isinstance(c.func, ast.Attribute) and c.func.attr == "append" and attr_of(c.func.value, "callbacks", "self"))
-        deleg = call_nodes(fg, lambda c: method_call(c, "addCallbacks", "self")) if name != "addCallbacks" else []
-        if not apps and len(deleg) == 1:
-            # documented alternative: "could be implemented as a call to addCallbacks"
-            _check_delegation(ctx, f, fg, fq, name, ps, want_ok, want_err, deleg[0])
-            continue
-        ctx.check(len(apps) == 1, "adder/appends-one-pair", fq, f"{name} appends {len(apps)} entries to self.callbacks instead of exactly one")
-        for n in apps:
-            c = calls_of(fg, n, lambda c: isinstance(c.func, ast.Attribute) and c.func.attr == "append")[0]
-            pair = c.args[0] if c.args else None
-            good = isinstance(pair, ast.Tuple) and len(pair.elts) == 2
-            callee_ok = callee_err = None
-            if good:
-                callee_ok, t_ok = _slot_callee(f, pair.elts[0], local_tuples)
-                callee_err, t_err = _slot_callee(f, pair.elts[1], local_tuples)
-                good = callee_ok is not None and callee_err is not None
-
-            def matches(expr, want):
-                if want.startswith("P:"):
-                    return is_name(expr, ps[int(want[2:])])
-                return is_name(expr, want)
-            ctx.check(good and matches(callee_ok, want_ok) and matches(callee_err, want_err), "adder/slot-layout", ctx.construct(fq, c),
-                      f"{name} does not store (success-callable, error-callable) = ({want_ok}, {want_err}) in slots (0, 1): "
-                      "a success would be routed to the errback or vice versa")
-            if good and name != "addCallbacks":
-                # the extra positional / keyword arguments travel with the user's callable, the pass-through gets none
-                for callee, trip, want in ((callee_ok, t_ok, want_ok), (callee_err, t_err, want_err)):
-                    if want.startswith("P:"):
-                        ok = is_name(trip.elts[1], f.args.vararg.arg if f.args.vararg else "") and is_name(trip.elts[2], f.args.kwarg.arg if f.args.kwarg else "")
-                    else:
-                        ok = src(trip.elts[1]) == "()" and src(trip.elts[2]) in ("{}", "_NONE_KWARGS")
-                    ctx.check(ok, "adder/slot-args", ctx.construct(fq, trip),
-                              f"{name}: the arguments stored next to {src(callee)} are not the ones the caller supplied for it")
-            if good and name == "addCallbacks":
-                ok = [src(e) for e in t_ok.elts[1:]] == ["callbackArgs", "callbackKeywords"] and \
-                    [src(e) for e in t_err.elts[1:]] == ["errbackArgs", "errbackKeywords"]
-                ctx.check(ok, "adder/slot-args", ctx.construct(fq, pair),
-                          "addCallbacks: callbackArgs/Keywords and errbackArgs/Keywords are not stored with their own callable")
-            # run at once when already called: from the append, the only way to the exit without _runCallbacks() is `self.called` false
-            runs = call_nodes(fg, lambda c: method_call(c, "_runCallbacks", "self"))
-            called_tests = {t.id for t in fg.nodes if t.kind == "test" and attr_of(t.ast, "called", "self")}
-
-            def ok_edge(a, b, l):
-                return l != "exc" and not (a in called_tests and l == "F")
-            wit = fg.path([n], [fg.exit], avoid=set(runs), edge_ok=ok_edge, strict=True)
-            ctx.check(bool(runs) and wit is None, "adder/runs-when-called", fq,
-                      f"{name} on an already fired Deferred can return without running the newly added callback",
-                      witness=fg.describe(wit))
-            for r in runs:
-                ctx.check(known_bool(fg, r, lambda e: attr_of(e, "called", "self")) is True and fg.must_precede([n], [r]) is None,
-                          "adder/run-guard", ctx.construct(fq, fg.node(r).ast),
-                          f"{name} runs the chain of a Deferred that has no result yet, or before the new pair is stored")
-        if name == "addCallbacks":
-            # errback=None means pass the failure through
-            dfl = stmt_nodes(fg, lambda st: any(is_name(t, ps[1]) and is_name(v, "_failthru") for t, v in targets_values(st) if v is not None))
-            ctx.check(bool(dfl) and all(any(ident_fact(e, pol, lambda x: is_name(x, ps[1]), lambda x: is_const(x, None)) is True
-                                            for e, pol in facts(fg, d)) for d in dfl),
-                      "adder/default-errback", fq, "addCallbacks(cb) without errback no longer passes failures through unchanged")
-        rets = stmt_nodes(fg, lambda st: isinstance(st, ast.Return))
-        ctx.check(bool(rets) and all(is_name(fg.node(r).ast.value, "self") for r in rets) and
-                  avoiding_path(fg, [fg.entry], [fg.exit], rets) is None, "adder/returns-self", fq,
-                  f"{name} does not return the Deferred itself on every path (d.addCallback(f).addCallback(g) would break)")
-    for nm in ("passthru", "_failthru"):
-        f = ctx.func(DEFER, nm)
-        p = params(f)
-        rets = [st for st in ast.walk(f) if isinstance(st, ast.Return)]
-        ctx.check(len(p) == 1 and len(rets) == 1 and is_name(rets[0].value, p[0]) and len([s for s in f.body if not isinstance(s, ast.Expr)]) == 1,
-                  "adder/pass-through-identity", Q + nm, f"{nm} is not the identity: a result would change while skipping a callback of the other kind")
-
-    # ======================================================================================
-    # (b) the call-out
-    # ======================================================================================
-    entry_guard = lambda e: attr_of(e, "_runningCallbacks", "self")
-    set_true = stmt_nodes(g, lambda st: any(attr_of(t, "_runningCallbacks", cur) and is_const(v, True) for t, v in targets_values(st) if v is not None))
-    set_false = stmt_nodes(g, lambda st: any(attr_of(t, "_runningCallbacks", cur) and is_const(v, False) for t, v in targets_values(st) if v is not None))
-    for p in S.pops:
-        ctx.check(known_bool(g, p, entry_guard) is False, "reentrancy/entry-guard", ctx.construct(q, g.node(p).ast),
-                  "_runCallbacks consumes callbacks although it is already running for this Deferred (a callback that adds a "
-                  "callback to its own Deferred would start the new one before the current one returned)")
-        # paused: nothing runs.  The tested Deferred must be the one whose callbacks are consumed.
-        ctx.check(known_zero(g, p, lambda e: attr_of(e, "paused", cur)) is True, "pause/guard-at-consumption",
-                  ctx.construct(q, g.node(p).ast),
-                  f"callbacks of `{cur}` are consumed without `{cur}.paused` having been tested zero: a paused Deferred "
-                  "(e.g. one reached through a _CONTINUE hand-over while explicitly paused) would run its callbacks")
-        # the test must be re-done whenever `cur` is re-bound
-        for b in S.binds:
-            tests = [t.id for t in g.nodes if t.kind == "test" and g.reachable(t.id) and
-                     (attr_of(t.ast, "paused", cur) or any(attr_of(x, "paused", cur) for x in ast.walk(t.ast)))]
-            wit = avoiding_path(g, [b], [p], tests)
-            ctx.check(wit is None, "pause/guard-after-rebind", ctx.construct(q, g.node(b).ast),
-                      "after taking the next Deferred from the chain stack its callbacks are consumed without testing its pause counter",
-                      witness=g.describe(wit))
-    for c in S.callouts:
-        call = calls_of(g, c, lambda x: is_name(x.func, S.cb))[0]
-        cons = ctx.construct(q, "<user callback call-out>")
-        ctx.check(S.is_continue(c) is False, "callout/not-the-sentinel", cons,
-                  "the _CONTINUE marker can reach the user call-out and be called like a callback")
-        # arguments and destination
-        a_ok = (len(call.args) == 2 and attr_of(call.args[0], "result", cur) and isinstance(call.args[1], ast.Starred)
-                and is_name(call.args[1].value, S.a) and len(call.keywords) == 1 and call.keywords[0].arg is None
-                and is_name(call.keywords[0].value, S.kw))
-        ctx.check(a_ok, "callout/arguments", cons,
-                  f"the callback is not called as callback({cur}.result, *args, **kwargs) with the args stored next to it")
-        st = g.node(c).ast
-        ctx.check(any(attr_of(t, "result", cur) and v is call for t, v in targets_values(st)), "callout/result-stored", cons,
-                  "the value returned by the callback does not become the Deferred's current result")
-        # flag set before, on every path, and not reset in between
-        wit = g.must_precede(set_true, [c])
-        ctx.check(bool(set_true) and wit is None, "reentrancy/flag-set-before-callout", cons,
-                  "the user callback can be entered with _runningCallbacks unset: re-entrant addCallback would run callbacks recursively",
-                  witness=g.describe(wit))
-        wit = avoiding_path(g, set_false, [c], set_true)
-        ctx.check(wit is None, "reentrancy/flag-set-before-callout", cons + " (not reset before)",
-                  "_runningCallbacks is reset between being set and the call-out", witness=g.describe(wit))
-        # flag reset after, on every path incl. exceptional, before the next consumption / any exit
-        targets = set(S.pops) | {g.exit, g.raise_exit} | set(S.binds)
-        wit = g.path([c], targets, avoid=set(set_false), strict=True)
-        ctx.check(bool(set_false) and wit is None, "reentrancy/flag-reset-on-every-exit", cons,
-                  "after the user callback (returning or raising) the loop can go on / leave with _runningCallbacks still True: "
-                  "callbacks added later to this Deferred would never run", witness=g.describe(wit))
-        # (c) every exception becomes the result
-        wit = exc_escape(g, c)
-        ctx.check(wit is None, "callout/exception-captured", cons,
-                  "an exception raised by a callback (BaseException included) can escape _runCallbacks instead of becoming the "
-                  "Deferred's Failure result", witness=g.describe(wit))
-        hs = catching_handlers(g, c)
-        ctx.check(bool(hs) and any(handler_catches_all(g.node(h).ast) for h in hs), "callout/exception-captured", cons + " (catch-all)",
-                  "no BaseException handler encloses the user call-out (handlers: "
-                  + ", ".join(n for h in hs for n in handler_names(g.node(h).ast)) + ")")
-        fail_assign = stmt_nodes(g, lambda st: any(attr_of(t, "result", cur) and isinstance(v, ast.Call) and dotted(v.func) == "Failure"
-                                                   and not v.args for t, v in targets_values(st) if v is not None))
-        for h in hs:
-            wit = g.path([h], set(S.pops) | {g.exit} | set(S.binds), avoid=set(fail_assign), edge_ok=no_exc, strict=True)
-            ctx.check(wit is None, "callout/exception-becomes-failure", ctx.construct(q, "except " + "/".join(handler_names(g.node(h).ast))),
-                      "after catching the callback's exception the loop continues without storing Failure() as the result",
-                      witness=g.describe(wit))
-    # slot selection by the kind of the current result
-    is_fail_test = lambda e: isinstance(e, ast.Call) and dotted(e.func) == "isinstance" and len(e.args) == 2 \
-        and attr_of(e.args[0], "result", cur) and is_name(e.args[1], "Failure")
-    for n, k in S.unpacks:
-        if isinstance(k, ast.IfExp):
-            t, neg = k.test, False
-            while isinstance(t, ast.UnaryOp) and isinstance(t.op, ast.Not):
-                t, neg = t.operand, not neg
-            on_fail, on_ok = (const_int(k.orelse), const_int(k.body)) if neg else (const_int(k.body), const_int(k.orelse))
-            ctx.check(is_fail_test(t) and on_fail == 1 and on_ok == 0, "callout/slot-selection", ctx.construct(q, g.node(n).ast),
-                      "the conditional slot index does not pick slot 1 for a Failure result and slot 0 otherwise")
-            continue
-        v = known_bool(g, n, is_fail_test)
-        ctx.check(v is not None and k == (1 if v else 0), "callout/slot-selection", ctx.construct(q, g.node(n).ast),
-                  f"slot {k} of the pair is used when the current result is {'a' if v else 'not a'} Failure "
-                  "(slot 0 is the callback, slot 1 the errback)")
-    for c in S.callouts:
-        wit = g.must_precede([n for n, _ in S.unpacks], [c])
-        ctx.check(wit is None, "callout/slot-selection", q + " | <every call-out uses a freshly selected slot>",
-                  "the call-out can be reached without selecting the callback/errback slot for this item", witness=g.describe(wit))
-        wit = avoiding_path(g, [c], S.callouts, S.pops)
-        ctx.check(wit is None, "callout/once-per-item", q + " | <user callback call-out>",
-                  "the same popped callback can be called twice", witness=g.describe(wit))
-    # what is fired: callback() hands over its argument, errback() always a Failure
-    f = ctx.func(DEFER, "Deferred.callback")
-    fg = ctx.cfg(f)
-    starts = call_nodes(fg, lambda c: method_call(c, "_startRunCallbacks", "self"))
-    for n in starts:
-        c = calls_of(fg, n, lambda c: method_call(c, "_startRunCallbacks", "self"))[0]
-        ctx.check(len(c.args) == 1 and is_name(c.args[0], params(f)[1]) and not name_assign_nodes(fg, params(f)[1]), "fire/callback-passes-its-argument",
-                  ctx.construct(Q + "Deferred.callback", c), "callback(x) does not start the chain with x")
-    f = ctx.func(DEFER, "Deferred.errback")
-    fg = ctx.cfg(f)
-    eq_ = Q + "Deferred.errback"
-    starts = call_nodes(fg, lambda c: method_call(c, "_startRunCallbacks", "self"))
-    ctx.check(bool(starts), "fire/errback-wraps-failure", eq_, "errback() never starts the chain")
-    for n in starts:
-        c = calls_of(fg, n, lambda c: method_call(c, "_startRunCallbacks", "self"))[0]
-        v = c.args[0] if len(c.args) == 1 else None
-        ok = is_name(v)
-        wit = None
-        if ok:
-            def ctor(x):
-                if isinstance(x, ast.IfExp):
-                    return ctor(x.body) and ctor(x.orelse)
-                return isinstance(x, ast.Call) and dotted(x.func) == "Failure"
-            wraps = stmt_nodes(fg, lambda st: any(is_name(t, v.id) and x is not None and ctor(x) for t, x in targets_values(st)))
-            is_f = lambda e: isinstance(e, ast.Call) and dotted(e.func) == "isinstance" and len(e.args) == 2 and is_name(e.args[0], v.id) and is_name(e.args[1], "Failure")
-            ftests = {t.id for t in fg.nodes if t.kind == "test" and is_f(t.ast)}
-            # a path to the firing that neither wrapped the value nor saw isinstance(value, Failure) succeed
-            wit = fg.path([fg.entry], [n], avoid=set(wraps), edge_ok=lambda a, b, l: l != "exc" and not (a in ftests and l == "T"))
-        ctx.check(ok and wit is None, "fire/errback-wraps-failure", ctx.construct(eq_, c),
-                  "errback(x) can start the chain with something that is not a Failure: the *callbacks* would run with the raw exception",
-                  witness=fg.describe(wit))
-    # who may write _runningCallbacks / paused
-    acc2 = module_accesses(mod, {"_runningCallbacks", "paused"})
-    for a in acc2:
-        if a.attr == "_runningCallbacks":
-            ok = a.func == "Deferred._runCallbacks"
-        else:
-            ok = a.func in ("Deferred.pause", "Deferred.unpause", "Deferred._runCallbacks") and a.kind == "augassign"
-        ctx.check(ok, "who-may-write/" + a.attr, ctx.construct(Q + a.func, a.node), f"{a.attr} is written in an unexpected place ({a.func}, {a.kind})")
-    ctx.floor("who-may-write", len(acc2), 3)
-
-    # ======================================================================================
-    # (d) pause / unpause
-    # ======================================================================================
-    f = ctx.func(DEFER, "Deferred.pause")
-    pg = ctx.cfg(f)
-    incs = stmt_nodes(pg, lambda st: isinstance(st, ast.AugAssign) and attr_of(st.target, "paused", "self") and isinstance(st.op, ast.Add) and const_int(st.value) == 1)
-    ctx.check(len(incs) == 1 and avoiding_path(pg, [pg.entry], [pg.exit], incs) is None and not pg.path(incs, incs, strict=True),
-              "pause/increments-once", Q + "Deferred.pause", "pause() does not increment the pause counter exactly once")
-    f = ctx.func(DEFER, "Deferred.unpause")
-    ug = ctx.cfg(f)
-    uq = Q + "Deferred.unpause"
-    decs = stmt_nodes(ug, lambda st: isinstance(st, ast.AugAssign) and attr_of(st.target, "paused", "self") and isinstance(st.op, ast.Sub) and const_int(st.value) == 1)
-    ctx.check(len(decs) == 1 and avoiding_path(ug, [ug.entry], [ug.exit], decs) is None, "unpause/decrements-once", uq,
-              "unpause() does not decrement the pause counter exactly once on every path")
-    uruns = call_nodes(ug, lambda c: method_call(c, "_runCallbacks", "self"))
-    ctx.check(bool(uruns), "unpause/resumes", uq, "unpause() never resumes the callback chain")
-    for r in uruns:
-        ctx.check(known_zero(ug, r, lambda e: attr_of(e, "paused", "self")) is True, "unpause/only-at-zero", ctx.construct(uq, ug.node(r).ast),
-                  "unpause() runs callbacks while the pause counter is still positive (two pauses, one unpause)")
-        ctx.check(known_bool(ug, r, lambda e: attr_of(e, "called", "self")) is True, "unpause/only-if-called", ctx.construct(uq, ug.node(r).ast),
-                  "unpause() runs callbacks of a Deferred that has no result yet")
-        ctx.check(ug.must_precede(decs, [r]) is None, "unpause/decrement-before-test", ctx.construct(uq, ug.node(r).ast),
-                  "unpause() tests the counter before decrementing it")
-    # when the counter reached zero and the Deferred is called, callbacks *are* resumed
-    ptests = {t.id for t in ug.nodes if t.kind == "test" and _zero_subject(t.ast, "self")}
-    ctests = {t.id for t in ug.nodes if t.kind == "test" and attr_of(t.ast, "called", "self")}
-
-    def live_edge(a, b, l):
-        if l == "exc":
-            return False
-        if a in ctests and l == "F":
-            return False
-        if a in ptests:
-            z = _zero_fact(ug.node(a).ast, l == "T", lambda e: attr_of(e, "paused", "self"))
-            if z is False:
-                return False
-        return True
-    wit = ug.path(decs, [ug.exit], avoid=set(uruns), edge_ok=live_edge, strict=True) if decs else None
-    ctx.check(wit is None, "unpause/resumes", uq + " | <counter zero and called>",
-              "unpause() bringing the counter to zero on a fired Deferred can return without running the callbacks", witness=ug.describe(wit))
-
-    # ---- _CONTINUE hand-over ------------------------------------------------------------------
-    ctx.check(bool(S.cont_tests), "continue/recognised", q + " | <test for the _CONTINUE marker>",
-              "_runCallbacks no longer recognises the _CONTINUE marker: chained Deferreds would never receive their result")
-    chainee = S.chainee
-    cont_T = [d for t in S.cont_tests for d, l in g.succ[t]
-              if l in ("T", "F") and ident_fact(g.node(t).ast, l == "T", lambda x: is_name(x, S.cb), lambda x: (dotted(x) or "").endswith("_CONTINUE")) is True]
-    handover = stmt_nodes(g, lambda st: any(attr_of(t, "result", chainee) and v is not None and attr_of(v, "result", cur) for t, v in targets_values(st)))
-    dec = stmt_nodes(g, lambda st: isinstance(st, ast.AugAssign) and attr_of(st.target, "paused", chainee) and isinstance(st.op, ast.Sub)
-                     and const_int(st.value) == 1) + call_nodes(g, lambda c: method_call(c, "unpause", chainee))
-    resume = call_nodes(g, lambda c: (method_call(c, "append", chain) and len(c.args) == 1 and is_name(c.args[0], chainee))
-                        or method_call(c, "unpause", chainee))
-    clear = stmt_nodes(g, lambda st: any(attr_of(t, "result", cur) and is_const(v, None) for t, v in targets_values(st) if v is not None))
-    leave = set(S.pops) | set(S.binds) | {g.exit}
-    cq = q + " | <_CONTINUE branch>"
-    if cont_T and chainee:
-        for via, rule, fails in (
-            (handover, "continue/result-handed-over", "the waiting Deferred is resumed without receiving the current result"),
-            (dec, "continue/one-unpause", "the waiting Deferred's pause (taken when it chained) is never undone: its remaining callbacks never run"),
-            (resume, "continue/waiting-deferred-resumed", "the waiting Deferred is not scheduled to run its remaining callbacks"),
-            (clear, "continue/inner-result-cleared", "the inner Deferred keeps the result it handed over (it must end with None)"),
-        ):
-            wit = avoiding_path(g, cont_T, leave, via, strict=False)
-            ctx.check(bool(via) and wit is None, rule, cq, fails, witness=g.describe(wit))
-        wit = avoiding_path(g, dec, dec, S.pops)
-        ctx.check(wit is None, "continue/one-unpause", cq + " (at most once)", "the waiting Deferred is un-paused twice for one hand-over",
-                  witness=g.describe(wit))
-        for d in dec + resume + handover:
-            ctx.check(S.is_continue(d) is True, "continue/confined", ctx.construct(q, g.node(d).ast),
-                      "hand-over to a waiting Deferred happens for an ordinary callback item")
-        wit = avoiding_path(g, cont_T, resume, handover, strict=False)
-        ctx.check(wit is None, "continue/result-before-resume", cq, "the waiting Deferred is resumed before the result is stored on it",
-                  witness=g.describe(wit))
-        wit = avoiding_path(g, cont_T, [c for c in clear if S.is_continue(c)], handover, strict=False)
-        ctx.check(wit is None, "continue/inner-result-cleared", cq + " (order)",
-                  "the inner result is cleared before it is handed over (the waiting Deferred receives None)", witness=g.describe(wit))
-        # nothing more runs for `cur` until the stack is re-read; `cur` must not be removed before the chainee is handled
-        for r in resume:
-            wit = avoiding_path(g, [r], set(S.pops) | set(S.callouts), S.binds)
-            ctx.check(wit is None, "continue/stop-after-handover", ctx.construct(q, g.node(r).ast),
-                      "after handing the result to the waiting Deferred the inner Deferred keeps consuming its own callbacks",
-                      witness=g.describe(wit))
-            wit = avoiding_path(g, [r], chain_pops, S.binds)
-            ctx.check(wit is None, "continue/stack-not-popped-early", ctx.construct(q, g.node(r).ast),
-                      "the chain stack is popped right after the waiting Deferred was pushed: the waiting Deferred is dropped unprocessed",
-                      witness=g.describe(wit))
-    else:
-        ctx.check(False, "continue/recognised", cq, "the _CONTINUE branch / the waiting Deferred taken from args[0] is not recognisable")
-    # chain stack: a Deferred is removed only when its inner loop ended without a hand-over
-    for cp in chain_pops:
-        wit = avoiding_path(g, S.binds, [cp], [])
-        ctx.check(wit is not None, "chain/pop-reachable", ctx.construct(q, g.node(cp).ast), "chain.pop() is unreachable")
-
-    # ---- returned Deferred: pause-and-chain or steal ------------------------------------------
+    S = None
+    with group(ctx, "run-callbacks/shape"):
+        S = RunShape(ctx)
+    g, cur, chain = (S.g, S.cur, S.chain) if S is not None else (None, None, None)
     cur_res = lambda e: attr_of(e, "result", cur)
-    is_def_test = [t.id for t in g.nodes if t.kind == "test" and g.reachable(t.id) and deferred_fact(t.ast, True, cur_res) is not None]
-    ctx.check(bool(is_def_test), "returned-deferred/recognised", q + " | <is the new result a Deferred?>",
-              "the value returned by a callback is no longer examined for being a Deferred")
-    for c in S.callouts:
-        wit = avoiding_path(g, [c], set(S.pops) | {g.exit} | set(S.binds), is_def_test)
-        ctx.check(wit is None, "returned-deferred/always-examined", q + " | <user callback call-out>",
-                  "after a callback returned normally the next callback can run without checking whether the result is a Deferred",
-                  witness=g.describe(wit))
-    dT = [d for t in is_def_test for d, l in g.succ[t] if l in ("T", "F") and deferred_fact(g.node(t).ast, l == "T", cur_res) is True]
-    wit = avoiding_path(g, dT, set(S.pops) | {g.exit} | set(S.callouts), set(S.regs) | set(S.steals), strict=False)
-    ctx.check(wit is None, "returned-deferred/chain-or-steal", q + " | <result is a Deferred>",
-              "a Deferred returned by a callback can be passed on as a plain value (neither its result taken nor waited for)",
-              witness=g.describe(wit))
-    pauses = call_nodes(g, lambda c: method_call(c, "pause", cur)) + stmt_nodes(
-        g, lambda st: isinstance(st, ast.AugAssign) and attr_of(st.target, "paused", cur) and isinstance(st.op, ast.Add) and const_int(st.value) == 1)
-    ctx.check(bool(S.regs), "chain/registration", q + " | <continuation registered on the returned Deferred>",
-              "waiting for an unfired returned Deferred is no longer arranged")
-    for r in S.regs:
-        call = calls_of(g, r, S._is_reg)[0]
-        cons = ctx.construct(q, call)
-        ctx.check(call.func.attr == "append" and S.is_inner(call.func.value.value), "chain/registration-target", cons,
-                  "the continuation is not appended to the callbacks of the Deferred the callback returned")
-        conts = [x for a in call.args for x in ast.walk(a) if isinstance(x, ast.Call) and isinstance(x.func, ast.Attribute) and x.func.attr == "_continuation"]
-        ctx.check(all(is_name(x.func.value, cur) for x in conts) and len(call.args) == 1 and call.args[0] in conts, "chain/registration-target",
-                  cons + " (whose continuation)", "the registered continuation is not the current Deferred's own")
-        wit = avoiding_path(g, S.callouts, [r], pauses)
-        ctx.check(bool(pauses) and wit is None, "chain/paused-while-waiting", cons,
-                  "the current Deferred waits for the returned Deferred without being paused: the _CONTINUE hand-over would drive "
-                  "its counter negative / callbacks added meanwhile run with a Deferred as input", witness=g.describe(wit))
-        wit = avoiding_path(g, pauses, pauses, S.callouts)
-        ctx.check(wit is None, "chain/paused-while-waiting", cons + " (once)", "the current Deferred is paused twice for one returned Deferred",
-                  witness=g.describe(wit))
-        wit = avoiding_path(g, [r], set(S.pops) | set(S.callouts), S.binds)
-        ctx.check(wit is None, "chain/stop-after-registration", cons,
-                  "after chaining to an unfired Deferred the loop goes on running callbacks with that Deferred as their input",
-                  witness=g.describe(wit))
-    for p_ in pauses:
-        wit = avoiding_path(g, [p_], set(S.pops) | {g.exit} | set(S.binds), S.regs)
-        ctx.check(wit is None, "chain/pause-implies-registration", ctx.construct(q, g.node(p_).ast),
-                  "the current Deferred is paused for a returned Deferred but no continuation is registered: it never resumes",
-                  witness=g.describe(wit))
-    # continuation tuple: _CONTINUE in both slots with the Deferred itself as args[0]
-    cf = ctx.func(DEFER, "Deferred._continuation")
-    rets = [st for st in ast.walk(cf) if isinstance(st, ast.Return)]
-    ltup = {t.id: v for st in cf.body for t, v in targets_values(st) if isinstance(t, ast.Name) and isinstance(v, ast.Tuple)}
-    okc = len(rets) == 1 and isinstance(rets[0].value, ast.Tuple) and len(rets[0].value.elts) == 2
-    if okc:
-        for e in rets[0].value.elts:
-            callee, trip = _slot_callee(cf, e, ltup)
-            okc = okc and callee is not None and (dotted(callee) or "").endswith("_CONTINUE") and isinstance(trip.elts[1], ast.Tuple) \
-                and len(trip.elts[1].elts) == 1 and is_name(trip.elts[1].elts[0], "self")
-    ctx.check(okc, "chain/continuation-shape", Q + "Deferred._continuation",
-              "_continuation() is not ((_CONTINUE, (self,), ..), (_CONTINUE, (self,), ..)): successes or failures of the inner "
-              "Deferred would not be handed to this Deferred")
+    chain_pops = call_nodes(g, lambda c: method_call(c, "pop", chain)) if S is not None and chain else []
 
-    # ---- steal --------------------------------------------------------------------------------
-    ctx.check(bool(S.steals), "steal/recognised", q + " | <result taken from a fired returned Deferred>",
-              "the result of an already fired returned Deferred is never taken over")
-    donor_clear = stmt_nodes(g, lambda st: any(isinstance(t, ast.Attribute) and t.attr == "result" and S.is_inner(t.value) and is_const(v, None)
-                                               for t, v in targets_values(st) if v is not None))
-    for s in S.steals:
-        cons = ctx.construct(q, g.node(s).ast)
-        V = [v.id for t, v in targets_values(g.node(s).ast) if attr_of(t, "result", cur) and is_name(v)][0]
-        fs = facts(g, s)
-        no_res = any(ident_fact(e, pol, lambda x: is_name(x, V), lambda x: (dotted(x) or "").endswith("_NO_RESULT")) is False for e, pol in fs)
-        not_def = any(deferred_fact(e, pol, lambda x: is_name(x, V)) is False for e, pol in fs)
-        unpaused = known_zero(g, s, lambda e: isinstance(e, ast.Attribute) and e.attr == "paused" and S.is_inner(e.value)) is True
-        ctx.check(no_res, "steal/only-if-fired", cons, "the result is taken from a returned Deferred that has not fired (the _NO_RESULT marker becomes the result)")
-        ctx.check(not_def, "steal/not-a-deferred", cons, "the stolen result may itself be a Deferred (the inner one is still waiting): it would be passed on as a value")
-        ctx.check(unpaused, "steal/not-paused", cons, "the result is taken from a returned Deferred that is paused (its own callbacks have not finished)")
-        ctx.check(any(deferred_fact(e, pol, cur_res) is True for e, pol in fs), "steal/confined", cons,
-                  "result stealing is not confined to 'the callback returned a Deferred'")
-        # every route call-out -> steal -> next consumption passes a donor clear
-        before = avoiding_path(g, S.callouts, [s], donor_clear)
-        after = avoiding_path(g, [s], set(S.pops) | {g.exit} | set(S.binds), donor_clear)
-        wit = after if (before is not None and after is not None) else None
-        ctx.check(bool(donor_clear) and wit is None, "steal/donor-cleared", cons,
-                  "the returned Deferred keeps the result that was taken from it (it must end holding None)", witness=g.describe(wit))
+    with group(ctx, "chain-stack"):
+        _need_shape(S)
+        # chain stack discipline: peek last, push by append, pop last (no explicit stack at all: judged by C02)
+        if chain is None:
+            raise AnalysisError("Deferred._runCallbacks has no explicit chain stack (C02 reports this); stack discipline not applicable")
+        for b in S.binds:
+            ctx.check(S.bind_index[b] == -1, "chain/lifo", ctx.construct(q, g.node(b).ast),
+                      "the current Deferred is not read from the top of the chain stack: after a _CONTINUE hand-over the waiting "
+                      "Deferred's callbacks would not be the ones run next")
+        chain_ops = call_nodes(g, lambda c: isinstance(c.func, ast.Attribute) and is_name(c.func.value, chain))
+        for n in chain_ops:
+            for c in calls_of(g, n, lambda c: isinstance(c.func, ast.Attribute) and is_name(c.func.value, chain)):
+                m = c.func.attr
+                ok = (m == "append" and len(c.args) == 1) or (m == "pop" and (not c.args or const_int(c.args[0]) == -1))
+                ctx.check(ok, "chain/lifo", ctx.construct(q, c),
+                          "the chain stack is pushed/popped at inconsistent ends: a finished Deferred other than the current one is removed")
+        ctx.check(bool(chain_pops), "chain/lifo", q + " | <pop of the chain stack>", "a finished Deferred is never removed from the chain stack")
+
+    # adders: slot layout, run-at-once on a called Deferred, return self
+    with group(ctx, "adders"):
+        for name, (want_ok, want_err) in ADDERS.items():
+            f = real_func(ctx, DEFER, f"Deferred.{name}")
+            fg = ctx.cfg(f)
+            fq = Q + f"Deferred.{name}"
+            ps = params(f)[1:]
+            local_tuples = {}
+            for n in fg.nodes:
+                if n.kind == "stmt":
+                    for t, v in targets_values(n.ast):
+                        if isinstance(t, ast.Name) and isinstance(v, ast.Tuple):
+                            local_tuples[t.id] = v
+            apps = call_nodes(fg, lambda c: isinstance(c.func, ast.Attribute) and c.func.attr == "append" and attr_of(c.func.value, "callbacks", "self"))
+            deleg = call_nodes(fg, lambda c: method_call(c, "addCallbacks", "self")) if name != "addCallbacks" else []
+            if not apps and len(deleg) == 1:
+                # documented alternative: "could be implemented as a call to addCallbacks"
+                _check_delegation(ctx, f, fg, fq, name, ps, want_ok, want_err, deleg[0])
+                continue
+            ctx.check(len(apps) == 1, "adder/appends-one-pair", fq, f"{name} appends {len(apps)} entries to self.callbacks instead of exactly one")
+            for n in apps:
+                c = calls_of(fg, n, lambda c: isinstance(c.func, ast.Attribute) and c.func.attr == "append")[0]
+                pair = c.args[0] if c.args else None
+                good = isinstance(pair, ast.Tuple) and len(pair.elts) == 2
+                callee_ok = callee_err = None
+                if good:
+                    callee_ok, t_ok = _slot_callee(f, pair.elts[0], local_tuples)
+                    callee_err, t_err = _slot_callee(f, pair.elts[1], local_tuples)
+                    good = callee_ok is not None and callee_err is not None
+
+                def matches(expr, want):
+                    if want.startswith("P:"):
+                        return is_name(expr, ps[int(want[2:])])
+                    return is_name(expr, want)
+                ctx.check(good and matches(callee_ok, want_ok) and matches(callee_err, want_err), "adder/slot-layout", ctx.construct(fq, c),
+                          f"{name} does not store (success-callable, error-callable) = ({want_ok}, {want_err}) in slots (0, 1): "
+                          "a success would be routed to the errback or vice versa")
+                if good and name != "addCallbacks":
+                    # the extra positional / keyword arguments travel with the user's callable, the pass-through gets none
+                    for callee, trip, want in ((callee_ok, t_ok, want_ok), (callee_err, t_err, want_err)):
+                        if want.startswith("P:"):
+                            ok = is_name(trip.elts[1], f.args.vararg.arg if f.args.vararg else "") and is_name(trip.elts[2], f.args.kwarg.arg if f.args.kwarg else "")
+                        else:
+                            ok = src(trip.elts[1]) == "()" and src(trip.elts[2]) in ("{}", "_NONE_KWARGS")
+                        ctx.check(ok, "adder/slot-args", ctx.construct(fq, trip),
+                                  f"{name}: the arguments stored next to {src(callee)} are not the ones the caller supplied for it")
+                if good and name == "addCallbacks":
+                    ok = [src(e) for e in t_ok.elts[1:]] == ["callbackArgs", "callbackKeywords"] and \
+                        [src(e) for e in t_err.elts[1:]] == ["errbackArgs", "errbackKeywords"]
+                    ctx.check(ok, "adder/slot-args", ctx.construct(fq, pair),
+                              "addCallbacks: callbackArgs/Keywords and errbackArgs/Keywords are not stored with their own callable")
+                # run at once when already called: from the append, the only way to the exit without _runCallbacks() is `self.called` false
+                runs = call_nodes(fg, lambda c: method_call(c, "_runCallbacks", "self"))
+                called_tests = {t.id for t in fg.nodes if t.kind == "test" and attr_of(t.ast, "called", "self")}
+
+                def ok_edge(a, b, l):
+                    return l != "exc" and not (a in called_tests and l == "F")
+                wit = fg.path([n], [fg.exit], avoid=set(runs), edge_ok=ok_edge, strict=True)
+                ctx.check(bool(runs) and wit is None, "adder/runs-when-called", fq,
+                          f"{name} on an already fired Deferred can return without running the newly added callback",
+                          witness=fg.describe(wit))
+                for r in runs:
+                    ctx.check(known_bool(fg, r, lambda e: attr_of(e, "called", "self")) is True and fg.must_precede([n], [r]) is None,
+                              "adder/run-guard", ctx.construct(fq, fg.node(r).ast),
+                              f"{name} runs the chain of a Deferred that has no result yet, or before the new pair is stored")
+            if name == "addCallbacks":
+                # errback=None means pass the failure through
+                dfl = stmt_nodes(fg, lambda st: any(is_name(t, ps[1]) and is_name(v, "_failthru") for t, v in targets_values(st) if v is not None))
+                ctx.check(bool(dfl) and all(any(ident_fact(e, pol, lambda x: is_name(x, ps[1]), lambda x: is_const(x, None)) is True
+                                                for e, pol in facts(fg, d)) for d in dfl),
+                          "adder/default-errback", fq, "addCallbacks(cb) without errback no longer passes failures through unchanged")
+            rets = stmt_nodes(fg, lambda st: isinstance(st, ast.Return))
+            ctx.check(bool(rets) and all(is_name(fg.node(r).ast.value, "self") for r in rets) and
+                      avoiding_path(fg, [fg.entry], [fg.exit], rets) is None, "adder/returns-self", fq,
+                      f"{name} does not return the Deferred itself on every path (d.addCallback(f).addCallback(g) would break)")
+        for nm in ("passthru", "_failthru"):
+            f = ctx.func(DEFER, nm)
+            p = params(f)
+            rets = [st for st in ast.walk(f) if isinstance(st, ast.Return)]
+            ctx.check(len(p) == 1 and len(rets) == 1 and is_name(rets[0].value, p[0]) and len([s for s in f.body if not isinstance(s, ast.Expr)]) == 1,
+                      "adder/pass-through-identity", Q + nm, f"{nm} is not the identity: a result would change while skipping a callback of the other kind")
+
+    # (b) the call-out
+    with group(ctx, "call-out"):
+        _need_shape(S)
+        entry_guard = lambda e: attr_of(e, "_runningCallbacks", "self")
+        set_true = stmt_nodes(g, lambda st: any(attr_of(t, "_runningCallbacks", cur) and is_const(v, True) for t, v in targets_values(st) if v is not None))
+        set_false = stmt_nodes(g, lambda st: any(attr_of(t, "_runningCallbacks", cur) and is_const(v, False) for t, v in targets_values(st) if v is not None))
+        for p in S.pops:
+            ctx.check(known_bool(g, p, entry_guard) is False, "reentrancy/entry-guard", ctx.construct(q, g.node(p).ast),
+                      "_runCallbacks consumes callbacks although it is already running for this Deferred (a callback that adds a "
+                      "callback to its own Deferred would start the new one before the current one returned)")
+            # paused: nothing runs.  The tested Deferred must be the one whose callbacks are consumed.
+            ctx.check(known_zero(g, p, lambda e: attr_of(e, "paused", cur)) is True, "pause/guard-at-consumption",
+                      ctx.construct(q, g.node(p).ast),
+                      f"callbacks of `{cur}` are consumed without `{cur}.paused` having been tested zero: a paused Deferred "
+                      "(e.g. one reached through a _CONTINUE hand-over while explicitly paused) would run its callbacks")
+            # the test must be re-done whenever `cur` is re-bound
+            for b in S.binds:
+                tests = [t.id for t in g.nodes if t.kind == "test" and g.reachable(t.id) and
+                         (attr_of(t.ast, "paused", cur) or any(attr_of(x, "paused", cur) for x in ast.walk(t.ast)))]
+                wit = avoiding_path(g, [b], [p], tests)
+                ctx.check(wit is None, "pause/guard-after-rebind", ctx.construct(q, g.node(b).ast),
+                          "after taking the next Deferred from the chain stack its callbacks are consumed without testing its pause counter",
+                          witness=g.describe(wit))
+        for c in S.callouts:
+            call = calls_of(g, c, lambda x: is_name(x.func, S.cb))[0]
+            cons = ctx.construct(q, "<user callback call-out>")
+            ctx.check(S.is_continue(c) is False, "callout/not-the-sentinel", cons,
+                      "the _CONTINUE marker can reach the user call-out and be called like a callback")
+            # arguments and destination
+            a_ok = (len(call.args) == 2 and attr_of(call.args[0], "result", cur) and isinstance(call.args[1], ast.Starred)
+                    and is_name(call.args[1].value, S.a) and len(call.keywords) == 1 and call.keywords[0].arg is None
+                    and is_name(call.keywords[0].value, S.kw))
+            ctx.check(a_ok, "callout/arguments", cons,
+                      f"the callback is not called as callback({cur}.result, *args, **kwargs) with the args stored next to it")
+            st = g.node(c).ast
+            ctx.check(any(attr_of(t, "result", cur) and v is call for t, v in targets_values(st)), "callout/result-stored", cons,
+                      "the value returned by the callback does not become the Deferred's current result")
+            # flag set before, on every path, and not reset in between
+            wit = g.must_precede(set_true, [c])
+            ctx.check(bool(set_true) and wit is None, "reentrancy/flag-set-before-callout", cons,
+                      "the user callback can be entered with _runningCallbacks unset: re-entrant addCallback would run callbacks recursively",
+                      witness=g.describe(wit))
+            wit = avoiding_path(g, set_false, [c], set_true)
+            ctx.check(wit is None, "reentrancy/flag-set-before-callout", cons + " (not reset before)",
+                      "_runningCallbacks is reset between being set and the call-out", witness=g.describe(wit))
+            # flag reset after, on every path incl. exceptional, before the next consumption / any exit
+            targets = set(S.pops) | {g.exit, g.raise_exit} | set(S.binds)
+            wit = g.path([c], targets, avoid=set(set_false), strict=True)
+            ctx.check(bool(set_false) and wit is None, "reentrancy/flag-reset-on-every-exit", cons,
+                      "after the user callback (returning or raising) the loop can go on / leave with _runningCallbacks still True: "
+                      "callbacks added later to this Deferred would never run", witness=g.describe(wit))
+            # (c) every exception becomes the result
+            wit = exc_escape(g, c)
+            ctx.check(wit is None, "callout/exception-captured", cons,
+                      "an exception raised by a callback (BaseException included) can escape _runCallbacks instead of becoming the "
+                      "Deferred's Failure result", witness=g.describe(wit))
+            hs = catching_handlers(g, c)
+            ctx.check(bool(hs) and any(handler_catches_all(g.node(h).ast) for h in hs), "callout/exception-captured", cons + " (catch-all)",
+                      "no BaseException handler encloses the user call-out (handlers: "
+                      + ", ".join(n for h in hs for n in handler_names(g.node(h).ast)) + ")")
+            fail_assign = stmt_nodes(g, lambda st: any(attr_of(t, "result", cur) and isinstance(v, ast.Call) and dotted(v.func) == "Failure"
+                                                       and not v.args for t, v in targets_values(st) if v is not None))
+            for h in hs:
+                wit = g.path([h], set(S.pops) | {g.exit} | set(S.binds), avoid=set(fail_assign), edge_ok=no_exc, strict=True)
+                ctx.check(wit is None, "callout/exception-becomes-failure", ctx.construct(q, "except " + "/".join(handler_names(g.node(h).ast))),
+                          "after catching the callback's exception the loop continues without storing Failure() as the result",
+                          witness=g.describe(wit))
+        # slot selection by the kind of the current result
+        is_fail_test = lambda e: isinstance(e, ast.Call) and dotted(e.func) == "isinstance" and len(e.args) == 2 \
+            and attr_of(e.args[0], "result", cur) and is_name(e.args[1], "Failure")
+        for n, k in S.unpacks:
+            if isinstance(k, ast.AST):
+                # item[1 if <test> else 0]  or  item[<test>] (a bool indexes 0 / 1)
+                t, body, orelse = (k.test, const_int(k.body), const_int(k.orelse)) if isinstance(k, ast.IfExp) else (k, 1, 0)
+                neg = False
+                while isinstance(t, ast.UnaryOp) and isinstance(t.op, ast.Not):
+                    t, neg = t.operand, not neg
+                on_fail, on_ok = (orelse, body) if neg else (body, orelse)
+                ctx.check(is_fail_test(t) and on_fail == 1 and on_ok == 0, "callout/slot-selection", ctx.construct(q, g.node(n).ast),
+                          "the conditional slot index does not pick slot 1 for a Failure result and slot 0 otherwise")
+                continue
+            v = known_bool(g, n, is_fail_test)
+            ctx.check(v is not None and k == (1 if v else 0), "callout/slot-selection", ctx.construct(q, g.node(n).ast),
+                      f"slot {k} of the pair is used when the current result is {'a' if v else 'not a'} Failure "
+                      "(slot 0 is the callback, slot 1 the errback)")
+        for c in S.callouts:
+            wit = g.must_precede([n for n, _ in S.unpacks], [c])
+            ctx.check(wit is None, "callout/slot-selection", q + " | <every call-out uses a freshly selected slot>",
+                      "the call-out can be reached without selecting the callback/errback slot for this item", witness=g.describe(wit))
+            wit = avoiding_path(g, [c], S.callouts, S.pops)
+            ctx.check(wit is None, "callout/once-per-item", q + " | <user callback call-out>",
+                      "the same popped callback can be called twice", witness=g.describe(wit))
+
+    with group(ctx, "fire"):
+        # what is fired: callback() hands over its argument, errback() always a Failure
+        f = ctx.func(DEFER, "Deferred.callback")
+        fg = ctx.cfg(f)
+        starts = call_nodes(fg, lambda c: method_call(c, "_startRunCallbacks", "self"))
+        for n in starts:
+            c = calls_of(fg, n, lambda c: method_call(c, "_startRunCallbacks", "self"))[0]
+            ctx.check(len(c.args) == 1 and is_name(c.args[0], params(f)[1]) and not name_assign_nodes(fg, params(f)[1]), "fire/callback-passes-its-argument",
+                      ctx.construct(Q + "Deferred.callback", c), "callback(x) does not start the chain with x")
+        f = ctx.func(DEFER, "Deferred.errback")
+        fg = ctx.cfg(f)
+        eq_ = Q + "Deferred.errback"
+        starts = call_nodes(fg, lambda c: method_call(c, "_startRunCallbacks", "self"))
+        ctx.check(bool(starts), "fire/errback-wraps-failure", eq_, "errback() never starts the chain")
+        for n in starts:
+            c = calls_of(fg, n, lambda c: method_call(c, "_startRunCallbacks", "self"))[0]
+            v = c.args[0] if len(c.args) == 1 else None
+            ok = is_name(v)
+            wit = None
+            if ok:
+                def ctor(x):
+                    if isinstance(x, ast.IfExp):
+                        return ctor(x.body) and ctor(x.orelse)
+                    return isinstance(x, ast.Call) and dotted(x.func) == "Failure"
+                wraps = stmt_nodes(fg, lambda st: any(is_name(t, v.id) and x is not None and ctor(x) for t, x in targets_values(st)))
+                is_f = lambda e: isinstance(e, ast.Call) and dotted(e.func) == "isinstance" and len(e.args) == 2 and is_name(e.args[0], v.id) and is_name(e.args[1], "Failure")
+                ftests = {t.id for t in fg.nodes if t.kind == "test" and is_f(t.ast)}
+                # a path to the firing that neither wrapped the value nor saw isinstance(value, Failure) succeed
+                wit = fg.path([fg.entry], [n], avoid=set(wraps), edge_ok=lambda a, b, l: l != "exc" and not (a in ftests and l == "T"))
+            ctx.check(ok and wit is None, "fire/errback-wraps-failure", ctx.construct(eq_, c),
+                      "errback(x) can start the chain with something that is not a Failure: the *callbacks* would run with the raw exception",
+                      witness=fg.describe(wit))
+
+    with group(ctx, "who-may-write"):
+        # who may write _runningCallbacks / paused
+        acc2 = module_accesses(mod, {"_runningCallbacks", "paused"})
+        for a in acc2:
+            if a.attr == "_runningCallbacks":
+                ok = a.func == "Deferred._runCallbacks"
+            else:
+                ok = a.func in ("Deferred.pause", "Deferred.unpause", "Deferred._runCallbacks") and a.kind == "augassign"
+            ctx.check(ok, "who-may-write/" + a.attr, ctx.construct(Q + a.func, a.node), f"{a.attr} is written in an unexpected place ({a.func}, {a.kind})")
+        ctx.floor("who-may-write", len(acc2), 3)
+
+    # (d) pause / unpause
+    with group(ctx, "pause-unpause"):
+        f = ctx.func(DEFER, "Deferred.pause")
+        pg = ctx.cfg(f)
+        incs = stmt_nodes(pg, lambda st: isinstance(st, ast.AugAssign) and attr_of(st.target, "paused", "self") and isinstance(st.op, ast.Add) and const_int(st.value) == 1)
+        ctx.check(len(incs) == 1 and avoiding_path(pg, [pg.entry], [pg.exit], incs) is None and not pg.path(incs, incs, strict=True),
+                  "pause/increments-once", Q + "Deferred.pause", "pause() does not increment the pause counter exactly once")
+        f = ctx.func(DEFER, "Deferred.unpause")
+        ug = ctx.cfg(f)
+        uq = Q + "Deferred.unpause"
+        decs = stmt_nodes(ug, lambda st: isinstance(st, ast.AugAssign) and attr_of(st.target, "paused", "self") and isinstance(st.op, ast.Sub) and const_int(st.value) == 1)
+        ctx.check(len(decs) == 1 and avoiding_path(ug, [ug.entry], [ug.exit], decs) is None, "unpause/decrements-once", uq,
+                  "unpause() does not decrement the pause counter exactly once on every path")
+        uruns = call_nodes(ug, lambda c: method_call(c, "_runCallbacks", "self"))
+        ctx.check(bool(uruns), "unpause/resumes", uq, "unpause() never resumes the callback chain")
+        for r in uruns:
+            ctx.check(known_zero(ug, r, lambda e: attr_of(e, "paused", "self")) is True, "unpause/only-at-zero", ctx.construct(uq, ug.node(r).ast),
+                      "unpause() runs callbacks while the pause counter is still positive (two pauses, one unpause)")
+            ctx.check(known_bool(ug, r, lambda e: attr_of(e, "called", "self")) is True, "unpause/only-if-called", ctx.construct(uq, ug.node(r).ast),
+                      "unpause() runs callbacks of a Deferred that has no result yet")
+            ctx.check(ug.must_precede(decs, [r]) is None, "unpause/decrement-before-test", ctx.construct(uq, ug.node(r).ast),
+                      "unpause() tests the counter before decrementing it")
+        # when the counter reached zero and the Deferred is called, callbacks *are* resumed
+        ptests = {t.id for t in ug.nodes if t.kind == "test" and _zero_subject(t.ast, "self")}
+        ctests = {t.id for t in ug.nodes if t.kind == "test" and attr_of(t.ast, "called", "self")}
+
+        def live_edge(a, b, l):
+            if l == "exc":
+                return False
+            if a in ctests and l == "F":
+                return False
+            if a in ptests:
+                z = _zero_fact(ug.node(a).ast, l == "T", lambda e: attr_of(e, "paused", "self"))
+                if z is False:
+                    return False
+            return True
+        wit = ug.path(decs, [ug.exit], avoid=set(uruns), edge_ok=live_edge, strict=True) if decs else None
+        ctx.check(wit is None, "unpause/resumes", uq + " | <counter zero and called>",
+                  "unpause() bringing the counter to zero on a fired Deferred can return without running the callbacks", witness=ug.describe(wit))
+
+    with group(ctx, "continue-handover"):
+        _need_shape(S)
+        # ---- _CONTINUE hand-over ------------------------------------------------------------------
+        ctx.check(bool(S.cont_tests), "continue/recognised", q + " | <test for the _CONTINUE marker>",
+                  "_runCallbacks no longer recognises the _CONTINUE marker: chained Deferreds would never receive their result")
+        chainee = S.chainee
+        cont_T = [d for t in S.cont_tests for d, l in g.succ[t]
+                  if l in ("T", "F") and ident_fact(g.node(t).ast, l == "T", lambda x: is_name(x, S.cb), lambda x: (dotted(x) or "").endswith("_CONTINUE")) is True]
+        handover = stmt_nodes(g, lambda st: any(attr_of(t, "result", chainee) and v is not None and attr_of(v, "result", cur) for t, v in targets_values(st)))
+        dec = stmt_nodes(g, lambda st: isinstance(st, ast.AugAssign) and attr_of(st.target, "paused", chainee) and isinstance(st.op, ast.Sub)
+                         and const_int(st.value) == 1) + call_nodes(g, lambda c: method_call(c, "unpause", chainee))
+        resume = call_nodes(g, lambda c: (method_call(c, "append", chain) and len(c.args) == 1 and is_name(c.args[0], chainee))
+                            or method_call(c, "unpause", chainee) or method_call(c, "_runCallbacks", chainee))
+        clear = stmt_nodes(g, lambda st: any(attr_of(t, "result", cur) and is_const(v, None) for t, v in targets_values(st) if v is not None))
+        leave = set(S.pops) | set(S.binds) | {g.exit}
+        cq = q + " | <_CONTINUE branch>"
+        if cont_T and chainee:
+            for via, rule, fails in (
+                (handover, "continue/result-handed-over", "the waiting Deferred is resumed without receiving the current result"),
+                (dec, "continue/one-unpause", "the waiting Deferred's pause (taken when it chained) is never undone: its remaining callbacks never run"),
+                (resume, "continue/waiting-deferred-resumed", "the waiting Deferred is not scheduled to run its remaining callbacks"),
+                (clear, "continue/inner-result-cleared", "the inner Deferred keeps the result it handed over (it must end with None)"),
+            ):
+                wit = avoiding_path(g, cont_T, leave, via, strict=False)
+                ctx.check(bool(via) and wit is None, rule, cq, fails, witness=g.describe(wit))
+            wit = avoiding_path(g, dec, dec, S.pops)
+            ctx.check(wit is None, "continue/one-unpause", cq + " (at most once)", "the waiting Deferred is un-paused twice for one hand-over",
+                      witness=g.describe(wit))
+            for d in dec + resume + handover:
+                ctx.check(S.is_continue(d) is True, "continue/confined", ctx.construct(q, g.node(d).ast),
+                          "hand-over to a waiting Deferred happens for an ordinary callback item")
+            wit = avoiding_path(g, cont_T, resume, handover, strict=False)
+            ctx.check(wit is None, "continue/result-before-resume", cq, "the waiting Deferred is resumed before the result is stored on it",
+                      witness=g.describe(wit))
+            wit = avoiding_path(g, cont_T, [c for c in clear if S.is_continue(c)], handover, strict=False)
+            ctx.check(wit is None, "continue/inner-result-cleared", cq + " (order)",
+                      "the inner result is cleared before it is handed over (the waiting Deferred receives None)", witness=g.describe(wit))
+            # nothing more runs for `cur` until the stack is re-read; `cur` must not be removed before the chainee is handled
+            for r in resume:
+                wit = avoiding_path(g, [r], set(S.pops) | set(S.callouts), S.binds)
+                ctx.check(wit is None, "continue/stop-after-handover", ctx.construct(q, g.node(r).ast),
+                          "after handing the result to the waiting Deferred the inner Deferred keeps consuming its own callbacks",
+                          witness=g.describe(wit))
+                wit = avoiding_path(g, [r], chain_pops, S.binds)
+                ctx.check(wit is None, "continue/stack-not-popped-early", ctx.construct(q, g.node(r).ast),
+                          "the chain stack is popped right after the waiting Deferred was pushed: the waiting Deferred is dropped unprocessed",
+                          witness=g.describe(wit))
+        else:
+            ctx.check(False, "continue/recognised", cq, "the _CONTINUE branch / the waiting Deferred taken from args[0] is not recognisable")
+        # chain stack: a Deferred is removed only when its inner loop ended without a hand-over
+        for cp in chain_pops:
+            wit = avoiding_path(g, S.binds, [cp], [])
+            ctx.check(wit is not None, "chain/pop-reachable", ctx.construct(q, g.node(cp).ast), "chain.pop() is unreachable")
+
+    with group(ctx, "returned-deferred"):
+        _need_shape(S)
+        # ---- returned Deferred: pause-and-chain or steal ------------------------------------------
+        is_def_test = [t.id for t in g.nodes if t.kind == "test" and g.reachable(t.id) and deferred_fact(t.ast, True, cur_res) is not None]
+        ctx.check(bool(is_def_test), "returned-deferred/recognised", q + " | <is the new result a Deferred?>",
+                  "the value returned by a callback is no longer examined for being a Deferred")
+        for c in S.callouts:
+            wit = avoiding_path(g, [c], set(S.pops) | {g.exit} | set(S.binds), is_def_test)
+            ctx.check(wit is None, "returned-deferred/always-examined", q + " | <user callback call-out>",
+                      "after a callback returned normally the next callback can run without checking whether the result is a Deferred",
+                      witness=g.describe(wit))
+        dT = [d for t in is_def_test for d, l in g.succ[t] if l in ("T", "F") and deferred_fact(g.node(t).ast, l == "T", cur_res) is True]
+        wit = avoiding_path(g, dT, set(S.pops) | {g.exit} | set(S.callouts), set(S.regs) | set(S.steals), strict=False)
+        ctx.check(wit is None, "returned-deferred/chain-or-steal", q + " | <result is a Deferred>",
+                  "a Deferred returned by a callback can be passed on as a plain value (neither its result taken nor waited for)",
+                  witness=g.describe(wit))
+        pauses = call_nodes(g, lambda c: method_call(c, "pause", cur)) + stmt_nodes(
+            g, lambda st: isinstance(st, ast.AugAssign) and attr_of(st.target, "paused", cur) and isinstance(st.op, ast.Add) and const_int(st.value) == 1)
+        ctx.check(bool(S.regs), "chain/registration", q + " | <continuation registered on the returned Deferred>",
+                  "waiting for an unfired returned Deferred is no longer arranged")
+        for r in S.regs:
+            call = calls_of(g, r, S._is_reg)[0]
+            cons = ctx.construct(q, call)
+            ctx.check(call.func.attr == "append" and S.is_inner(call.func.value.value), "chain/registration-target", cons,
+                      "the continuation is not appended to the callbacks of the Deferred the callback returned")
+            conts = [x for a in call.args for x in ast.walk(a) if isinstance(x, ast.Call) and isinstance(x.func, ast.Attribute) and x.func.attr == "_continuation"]
+            ctx.check(all(is_name(x.func.value, cur) for x in conts) and len(call.args) == 1 and call.args[0] in conts, "chain/registration-target",
+                      cons + " (whose continuation)", "the registered continuation is not the current Deferred's own")
+            wit = avoiding_path(g, S.callouts, [r], pauses)
+            ctx.check(bool(pauses) and wit is None, "chain/paused-while-waiting", cons,
+                      "the current Deferred waits for the returned Deferred without being paused: the _CONTINUE hand-over would drive "
+                      "its counter negative / callbacks added meanwhile run with a Deferred as input", witness=g.describe(wit))
+            wit = avoiding_path(g, pauses, pauses, S.callouts)
+            ctx.check(wit is None, "chain/paused-while-waiting", cons + " (once)", "the current Deferred is paused twice for one returned Deferred",
+                      witness=g.describe(wit))
+            wit = avoiding_path(g, [r], set(S.pops) | set(S.callouts), S.binds)
+            ctx.check(wit is None, "chain/stop-after-registration", cons,
+                      "after chaining to an unfired Deferred the loop goes on running callbacks with that Deferred as their input",
+                      witness=g.describe(wit))
+        for p_ in pauses:
+            wit = avoiding_path(g, [p_], set(S.pops) | {g.exit} | set(S.binds), S.regs)
+            ctx.check(wit is None, "chain/pause-implies-registration", ctx.construct(q, g.node(p_).ast),
+                      "the current Deferred is paused for a returned Deferred but no continuation is registered: it never resumes",
+                      witness=g.describe(wit))
+        # continuation tuple: _CONTINUE in both slots with the Deferred itself as args[0]
+        cf = ctx.func(DEFER, "Deferred._continuation")
+        rets = [st for st in ast.walk(cf) if isinstance(st, ast.Return)]
+        ltup = {t.id: v for st in cf.body for t, v in targets_values(st) if isinstance(t, ast.Name) and isinstance(v, ast.Tuple)}
+        okc = len(rets) == 1 and isinstance(rets[0].value, ast.Tuple) and len(rets[0].value.elts) == 2
+        if okc:
+            for e in rets[0].value.elts:
+                callee, trip = _slot_callee(cf, e, ltup)
+                okc = okc and callee is not None and (dotted(callee) or "").endswith("_CONTINUE") and isinstance(trip.elts[1], ast.Tuple) \
+                    and len(trip.elts[1].elts) == 1 and is_name(trip.elts[1].elts[0], "self")
+        ctx.check(okc, "chain/continuation-shape", Q + "Deferred._continuation",
+                  "_continuation() is not ((_CONTINUE, (self,), ..), (_CONTINUE, (self,), ..)): successes or failures of the inner "
+                  "Deferred would not be handed to this Deferred")
+
+    with group(ctx, "steal"):
+        _need_shape(S)
+        # ---- steal --------------------------------------------------------------------------------
+        ctx.check(bool(S.steals), "steal/recognised", q + " | <result taken from a fired returned Deferred>",
+                  "the result of an already fired returned Deferred is never taken over")
+        donor_clear = stmt_nodes(g, lambda st: any(isinstance(t, ast.Attribute) and t.attr == "result" and S.is_inner(t.value) and is_const(v, None)
+                                                   for t, v in targets_values(st) if v is not None))
+        for s in S.steals:
+            cons = ctx.construct(q, g.node(s).ast)
+            V = [v.id for t, v in targets_values(g.node(s).ast) if attr_of(t, "result", cur) and is_name(v)][0]
+            fs = facts(g, s)
+            no_res = any(ident_fact(e, pol, lambda x: is_name(x, V), lambda x: (dotted(x) or "").endswith("_NO_RESULT")) is False for e, pol in fs)
+            not_def = any(deferred_fact(e, pol, lambda x: is_name(x, V)) is False for e, pol in fs)
+            unpaused = known_zero(g, s, lambda e: isinstance(e, ast.Attribute) and e.attr == "paused" and S.is_inner(e.value)) is True
+            ctx.check(no_res, "steal/only-if-fired", cons, "the result is taken from a returned Deferred that has not fired (the _NO_RESULT marker becomes the result)")
+            ctx.check(not_def, "steal/not-a-deferred", cons, "the stolen result may itself be a Deferred (the inner one is still waiting): it would be passed on as a value")
+            ctx.check(unpaused, "steal/not-paused", cons, "the result is taken from a returned Deferred that is paused (its own callbacks have not finished)")
+            ctx.check(any(deferred_fact(e, pol, cur_res) is True for e, pol in fs), "steal/confined", cons,
+                      "result stealing is not confined to 'the callback returned a Deferred'")
+            # every route call-out -> steal -> next consumption passes a donor clear
+            before = avoiding_path(g, S.callouts, [s], donor_clear)
+            after = avoiding_path(g, [s], set(S.pops) | {g.exit} | set(S.binds), donor_clear)
+            wit = after if (before is not None and after is not None) else None
+            ctx.check(bool(donor_clear) and wit is None, "steal/donor-cleared", cons,
+                      "the returned Deferred keeps the result that was taken from it (it must end holding None)", witness=g.describe(wit))
+
+
+def _need_shape(S):
+    if S is None:
+        raise AnalysisError("Deferred._runCallbacks skeleton not readable (see run-callbacks/shape)")
 
 
 def _check_delegation(ctx, f, fg, fq, name, ps, want_ok, want_err, node):
@@ -563,6 +589,11 @@ MUTANTS = [
     Mutant("wait-without-pause", D, "                            current.pause()\n                            current._chainedTo = currentResult\n", "                            current._chainedTo = currentResult\n",
            expect_rule="chain/paused-while-waiting"),
     Mutant("exception-result-not-stored", D, "                    current.result = Failure(captureVars=self.debug)\n", "                    pass\n", expect_rule="callout/exception-becomes-failure"),
+    Mutant("callbacks-iterated-not-removed", D, "            while current.callbacks:\n                item = current.callbacks.pop(0)\n", "            for item in list(current.callbacks):\n",
+           expect_rule="callbacks/fifo-drain"),
+    Mutant("callbacks-peeked-not-removed", D, "                item = current.callbacks.pop(0)\n", "                item = current.callbacks[0]\n", expect_rule="callbacks/fifo-drain"),
+    Mutant("slot-index-negated", D, "                if not isinstance(current.result, Failure):\n                    callback, args, kwargs = item[0]\n                else:\n                    # type note: Callback signature also works for Errbacks in\n                    #     this context.\n                    callback, args, kwargs = item[1]\n",
+           "                callback, args, kwargs = item[not isinstance(current.result, Failure)]\n", expect_rule="callout/slot-selection"),
 ]
 SILENT = [
     Silent("rename-locals", D, "item = current.callbacks.pop(0)\n                if not isinstance(current.result, Failure):\n                    callback, args, kwargs = item[0]",
@@ -587,4 +618,7 @@ SILENT = [
     Silent("steal-test-inverted", D,
            "                        if (\n                            resultResult is _NO_RESULT\n                            or type(resultResult) in _DEFERRED_SUBCLASSES\n                            or currentResult.paused\n                        ):\n                            # Nope, it didn't.  Pause and chain.\n                            current.pause()\n                            current._chainedTo = currentResult\n                            # Note: current.result has no result, so it's not\n                            # running its callbacks right now.  Therefore we can\n                            # append to the callbacks list directly instead of\n                            # using addCallbacks.\n                            currentResult.callbacks.append(current._continuation())\n                            break\n                        else:\n                            # Yep, it did.  Steal it.\n                            currentResult.result = None\n                            # Make sure _debugInfo's failure state is updated.\n                            if currentResult._debugInfo is not None:\n                                currentResult._debugInfo.failResult = None\n                            current.result = resultResult\n",
            "                        if (\n                            resultResult is not _NO_RESULT\n                            and type(resultResult) not in _DEFERRED_SUBCLASSES\n                            and not currentResult.paused\n                        ):\n                            currentResult.result = None\n                            if currentResult._debugInfo is not None:\n                                currentResult._debugInfo.failResult = None\n                            current.result = resultResult\n                            continue\n                        current.pause()\n                        current._chainedTo = currentResult\n                        currentResult.callbacks.append(current._continuation())\n                        break\n"),
+    Silent("peek-then-delete-front", D, "                item = current.callbacks.pop(0)\n", "                item = current.callbacks[0]\n                del current.callbacks[0]\n"),
+    Silent("slot-index-by-bool", D, "                if not isinstance(current.result, Failure):\n                    callback, args, kwargs = item[0]\n                else:\n                    # type note: Callback signature also works for Errbacks in\n                    #     this context.\n                    callback, args, kwargs = item[1]\n",
+           "                callback, args, kwargs = item[isinstance(current.result, Failure)]\n"),
 ]
